@@ -35,6 +35,11 @@ CLAIMED = {
         technique='deterministic simulation (history engine): seeded operation histories on spec-less pg.List/pg.Dict, step-wise refinement against Python list/dict driven by the same operations (the interpreter is the reference model)',
         text='Seeded exploration of histories over the full list/dict API (positive/negative/out-of-range indices, slices with steps, in-place operators, update/setdefault/popitem, rebind) at arbitrary nesting depth; after every step the result, the exception class and every read-back (iteration, len, in, slicing, ==, keys order, to_json) must agree with a plain Python twin. No schedule or fault dimension exists for this property; what the technique contributes is the history search, the executable reference and minimised replays.',
         note='Trusted: CPython list/dict as the reference. Documented extensions are modelled (index past the end appends, Insertion inserts, nested plain containers become symbolic, no aliasing of one child in two slots). Batches whose outcome depends on rebind\'s own ordering rules (overlapping paths, several writes into one container) are not judged.'),
+    'C03': dict(
+        engine='symtree', design='§2',
+        technique='deterministic simulation (history engine): seeded histories of valid and schema-invalid writes through every write path on typed objects/lists/dicts, with rejected-element-in-batch faults and allow_partial scopes; schema invariant judged by the bound specs after every step, failure atomicity of rejected writes',
+        text='Seeded exploration of histories on typed trees (ranges, enums, nested dict/list/tuple/object/union specs, noneable/default/frozen, dynamic keys, min/max sizes). After every step, successful or failed, every typed node must hold only declared keys, values its own spec accepts and maps to itself (plus an independent check of primitive constraints), required fields unless explicitly partial, frozen values, list lengths within bounds; a rejected single write must leave the forest unchanged; class-level defaults must be unchanged at the end.',
+        note='Trusted: the value specs as judges of stored values (cross-checked for Int/Str/Enum/Bool/Object from public attributes); the harness tracks which trees were explicitly made partial. Type checking ON as the property states. Batches may keep their earlier valid elements.'),
 }
 
 NOT_APPLICABLE = {}
